@@ -452,3 +452,159 @@ pub fn native_argument_label_family(reg: &[(String, String, usize)]) -> Vec<Stri
     out.dedup();
     out
 }
+
+// ---------------------------------------------------------------------------------------------
+// families added after the tenth round
+
+fn lit(s: &str) -> String {
+    let mut out = String::from("\"");
+    for c in s.chars() {
+        match c {
+            '"' => out.push_str("\\\""),
+            '\\' => out.push_str("\\\\"),
+            '\n' => out.push_str("\\n"),
+            '\r' => out.push_str("\\r"),
+            '\t' => out.push_str("\\t"),
+            c => out.push(c),
+        }
+    }
+    out.push('"');
+    out
+}
+
+/// the same list given for two or three parameters of one call: every parameter names the caller's list itself
+pub fn same_list_twice_family() -> Vec<String> {
+    let procs = "PROCEDURE mirror(a, b) {\nn <- LENGTH(b)\nREPEAT n TIMES {\nAPPEND(a, b[n])\nn <- n - 1\n}\nRETURN LENGTH(b)\n}\nPROCEDURE later(a, b) {\nAPPEND(b, \"via b\")\nRETURN a\n}\nPROCEDURE earlier(a, b) {\nAPPEND(a, \"via a\")\nRETURN b\n}\nPROCEDURE write(a, b) {\nb[1] <- \"w\"\nRETURN a[1]\n}\nPROCEDURE three(a, b, c) {\nAPPEND(c, LENGTH(a))\nREMOVE(b, 1)\nRETURN [LENGTH(a), LENGTH(b), LENGTH(c)]\n}\nPROCEDURE rebind(a, b) {\nb <- [0]\nAPPEND(b, 1)\nRETURN a\n}\n";
+    let mut out = vec![];
+    for call in ["mirror(xs, xs)", "later(xs, xs)", "earlier(xs, xs)", "write(xs, xs)", "three(xs, xs, xs)", "three(xs, ys, xs)", "three(ys, xs, xs)", "rebind(xs, xs)", "later(xs, al)", "mirror(grid[1], xs)", "later(xs, (xs))", "later(xs, xs + [])"] {
+        out.push(format!("{procs}xs <- [1, 2, 3]\nys <- [7]\nal <- xs\ngrid <- [xs, ys]\nr <- {call}\nDISPLAY(r)\nDISPLAY(xs)\nDISPLAY(ys)\nDISPLAY(al)\nDISPLAY(grid)\n"));
+    }
+    out
+}
+
+/// long chains of one operator (33 ... 70 operands), written plainly and with every sub-expression parenthesised:
+/// the same value, whatever the depth of the explicit parentheses
+pub fn long_chain_twins() -> Vec<(String, String)> {
+    let mut out = vec![];
+    for n in [8usize, 31, 32, 33, 34, 40, 64, 65, 70] {
+        for op in ["-", "+", "/", "*", "AND", "OR", "==", "MOD"] {
+            let operand = |i: usize| -> String {
+                match op {
+                    "AND" | "OR" => if i % 2 == 0 { "TRUE".into() } else { "FALSE".into() },
+                    "/" | "MOD" => format!("{}", 1 + i % 3),
+                    _ => format!("{}", i + 1),
+                }
+            };
+            let plain: Vec<String> = (0..n).map(operand).collect();
+            // left-nested: the grouping the grammar gives
+            let mut full = operand(0);
+            for i in 1..n {
+                full = format!("({full} {op} {})", operand(i));
+            }
+            out.push((format!("DISPLAY({})\n", plain.join(&format!(" {op} "))), format!("DISPLAY({full})\n")));
+            // right-nested with explicit parentheses, and its twin with the same parentheses doubled
+            let mut right = operand(n - 1);
+            for i in (0..n - 1).rev() {
+                right = format!("{} {op} ({right})", operand(i));
+            }
+            let doubled = right.replace('(', "((").replace(')', "))");
+            out.push((format!("DISPLAY({right})\n"), format!("DISPLAY({doubled})\n")));
+        }
+    }
+    out
+}
+
+/// texts that are fragments of number syntax, for every procedure that reads a text
+pub fn number_fragment_family() -> Vec<String> {
+    let frags = ["-", "+", ".", "-.", "+.", "e", "E", "1e", "e5", "-e", "1e+", "1e-", "0x", "0x10", "_", "1_0", "١", "∞", "-∞", "--1", "+-1", "-+1", "1-", "1+", " ", " 1", "1 ", "\\t1", "1\\n", "1\\r\\n", "+1", "-1", "+0", "-0", ".5", "5.", "-.5", "1.2.3", "1,5", "inf", "-inf", "+inf", "Inf", "INF", "infinity", "-Infinity", "nan", "NaN", "-nan", "1e5", "1E5", "1e309", "-1e309", "1e-400", "t", "T", "true ", "TRUE", "True", "false", "FALSE", "yes", "0", "1", ""];
+    let mut out = vec![];
+    for f in frags {
+        out.push(format!("IMPORT MOD \"STRING\"\ns <- \"{f}\"\nDISPLAY(\"start\")\nDISPLAY([TO_NUMBER(s)])\nDISPLAY([TO_BOOL(s)])\nDISPLAY(TO_NUMBER(s) == NULL)\nDISPLAY(LENGTH(s))\nDISPLAY(\"[\" + TRIM(s) + \"]\")\nDISPLAY(TO_UPPER(s) + TO_LOWER(s))\nt <- \"\" + TO_NUMBER(s)\nDISPLAY(t)\nDISPLAY([TO_NUMBER(t)])\n"));
+    }
+    out
+}
+
+/// nested targets and nested reads with a failing index at each level (out of range, not a number, not a list below)
+pub fn nested_index_error_family() -> Vec<(String, String)> {
+    let mut out = vec![];
+    let pre = "grid <- [[1, 2, 3], [4, 5, 6]]\ncube <- [[[1, 2], [3, 4]], [[5, 6], [7, 8]]]\nrow <- 2\nDISPLAY(\"éarlier output\")\n";
+    for (stmt, label) in [
+        ("grid[row][3 + 1] <- 0", "3 + 1"),
+        ("grid[row + 1][1] <- 0", "row + 1"),
+        ("grid[row][0] <- 0", "0"),
+        ("grid[0][1] <- 0", "0"),
+        ("grid[row][\"k\"] <- 0", "\"k\""),
+        ("grid[\"k\"][1] <- 0", "\"k\""),
+        ("cube[1][2][3] <- 0", "3"),
+        ("cube[1][3][1] <- 0", "3"),
+        ("cube[3][1][1] <- 0", "3"),
+        ("cube[row][row][row + 1] <- 0", "row + 1"),
+        ("x <- grid[row][3 + 1]", "3 + 1"),
+        ("x <- grid[row + 1][1]", "row + 1"),
+        ("x <- cube[1][2][3]", "3"),
+        ("x <- cube[1][3][1]", "3"),
+        ("grid[row][1][1] <- 0", "grid"),
+        ("x <- grid[row][1][1]", "grid"),
+        ("grid[ row ][ 9 ] <- 0", " 9 "),
+        ("grid[row]\\\n[9] <- 0", "9"),
+    ] {
+        for ctx in ["@\n", "IF (TRUE) {\n@\n}\n", "PROCEDURE f(grid, cube, row) {\n@\nRETURN 1\n}\nDISPLAY(f(grid, cube, row))\n"] {
+            out.push((format!("{pre}{}", ctx.replace('@', stmt)), label.to_string()));
+        }
+    }
+    out
+}
+
+/// the procedure called last before an IMPORT (or a re-declaration) that installs another procedure of that name, and
+/// called first after it: the call after sees the new procedure
+pub fn rebind_adjacent_calls() -> Vec<(String, String)> {
+    let lib = "DISPLAY(\"module top-level\")\nEXPORT PROCEDURE f() {\nRETURN \"from the module\"\n}\nEXPORT PROCEDURE g() {\nRETURN \"g from the module\"\n}\n".to_string();
+    let mut out = vec![];
+    for imp in ["IMPORT MOD \"lib.ap\"", "IMPORT \"f\" FROM MOD \"lib.ap\"", "IMPORT [\"f\", \"g\"] FROM MOD \"lib.ap\""] {
+        for before in ["x <- f()\n", "x <- f()\nx <- f()\n", "x <- f() + f()\n", "", "x <- g()\n", "x <- f()\ny <- g()\n"] {
+            for after in ["y <- f()\nDISPLAY(y)\n", "DISPLAY(f())\n", "y <- f()\nz <- f()\nDISPLAY(y + z)\n", "REPEAT 2 TIMES {\nDISPLAY(f())\n}\n"] {
+                out.push((lib.clone(), format!("PROCEDURE f() {{\nRETURN \"from main\"\n}}\nPROCEDURE g() {{\nRETURN \"g from main\"\n}}\n{before}{imp}\n{after}")));
+            }
+        }
+    }
+    out
+}
+
+/// texts with line structure (LF, CR LF, lone CR, tabs) through the two-argument text procedures, the law
+/// JOIN(SPLIT(s, p), p) = s included
+pub fn line_structure_family() -> Vec<String> {
+    let subjects = ["a\nb", "a\nb\n", "\na", "\n", "", "a\r\nb", "a\r\nb\r\n", "a\rb", "\r\n", "a\n\nb", "a\n\n", " a \n", "\ta\t", "a\tb", "x\n\r\ny", "one\ntwo\nthree\n"];
+    let pats = ["\n", "\r\n", "\r", "\n\n", "\t", " ", "a", "a\n"];
+    let mut out = vec![];
+    for s in subjects {
+        for p in pats {
+            out.push(format!("IMPORT MOD \"STRING\"\ns <- {}\np <- {}\nparts <- SPLIT(s, p)\nDISPLAY(LENGTH(parts))\nDISPLAY(parts)\nDISPLAY(JOIN(parts, p) == s)\nDISPLAY(CONTAINS(s, p))\nDISPLAY(STARTS_WITH(s, p))\nDISPLAY(ENDS_WITH(s, p))\nDISPLAY(REPLACE(s, p, \"|\"))\nDISPLAY(\"[\" + TRIM(s) + \"]\")\nDISPLAY(LENGTH(s))\nDISPLAY(TO_CHAR_ARRAY(s))\nDISPLAY(LENGTH(SPLIT(s, \"\")))\n", lit(s), lit(p)));
+        }
+    }
+    out
+}
+
+/// a list that comes out of a library call which does not build it (MAP_GET, the value MAP_INSERT returns, REMOVE's
+/// result, an element of MAP_VALUES, an element read by index) is the stored list itself: changed through the result
+/// it changes in the container, and the other way round
+pub fn library_result_identity_family() -> Vec<String> {
+    let pre = "IMPORT MOD \"MAP\"\nm <- MAP()\ninner <- [1]\nMAP_INSERT(m, \"k\", inner)\nMAP_INSERT(m, \"other\", [9])\nbox <- [inner, [2]]\n";
+    let getters = [
+        ("MAP_GET(m, \"k\")", "MAP_GET(m, \"k\")"),
+        ("MAP_INSERT(m, \"k\", [5])", "inner"),
+        ("REMOVE(box, 1)", "inner"),
+        ("box[1]", "box[1]"),
+        ("MAP_GET(m, \"missing\")", "MAP_GET(m, \"missing\")"),
+    ];
+    let mut out = vec![];
+    for (get, reread) in getters {
+        for op in ["APPEND(X, \"added\")", "X[1] <- \"written\"", "INSERT(X, 1, \"front\")", "DISPLAY(REMOVE(X, 1))"] {
+            out.push(format!("{pre}g <- {get}\nDISPLAY(g)\nIF (NOT (g == NULL)) {{\n{}\n}}\nDISPLAY(g)\nDISPLAY({reread})\nDISPLAY(inner)\nDISPLAY(box)\nDISPLAY(MAP_GET(m, \"other\"))\n", op.replace('X', "g")));
+            out.push(format!("{pre}g <- {get}\n{}\nDISPLAY(g)\nDISPLAY({reread})\nDISPLAY(inner)\n", op.replace('X', "inner")));
+        }
+        // without a variable in between: the grouping idiom
+        out.push(format!("{pre}IF (NOT ({get} == NULL)) {{\nAPPEND({reread}, \"direct\")\n}}\nDISPLAY({reread})\nDISPLAY(inner)\n"));
+    }
+    out.push("IMPORT MOD \"MAP\"\ngroups <- MAP()\nMAP_INSERT(groups, 0, [])\nMAP_INSERT(groups, 1, [])\nn <- 0\nREPEAT 5 TIMES {\nn <- n + 1\nAPPEND(MAP_GET(groups, n MOD 2), n)\n}\nDISPLAY(MAP_GET(groups, 0))\nDISPLAY(MAP_GET(groups, 1))\nvs <- MAP_VALUES(groups, 0)\nAPPEND(vs[1], \"through values\")\nDISPLAY(LENGTH(MAP_GET(groups, 0)) + LENGTH(MAP_GET(groups, 1)))\n".to_string());
+    out
+}
